@@ -8,6 +8,9 @@ import (
 	"sync"
 	"time"
 
+	goat "github.com/avos-io/goat"
+	"google.golang.org/grpc"
+
 	"github.com/avos-io/goat/gen/goatorepo"
 	"github.com/avos-io/goat/internal/server"
 	"google.golang.org/grpc/codes"
@@ -124,6 +127,158 @@ func runC06(r *Run) {
 	}
 	if r.Want("sendcancel") {
 		c06CancelDuringSend(r)
+	}
+	if r.Want("resetrace") {
+		c06ResetVersusTrailer(r)
+	}
+}
+
+// gateRW is a server-side transport that holds the first trailer it is asked to write until released,
+// and lets every other write through at once (a slow peer, from the library's point of view).
+type gateRW struct {
+	in       chan *Rpc
+	mu       sync.Mutex
+	wire     []*Rpc
+	held     chan struct{}
+	release  chan struct{}
+	heldOnce bool
+	wrote    chan struct{}
+}
+
+func (g *gateRW) Read(ctx context.Context) (*Rpc, error) {
+	select {
+	case r := <-g.in:
+		return r, nil
+	case <-ctx.Done():
+		return nil, ctx.Err()
+	}
+}
+
+func (g *gateRW) Write(ctx context.Context, r *Rpc) error {
+	g.mu.Lock()
+	hold := r.Trailer != nil && r.Reset_ == nil && !g.heldOnce
+	if hold {
+		g.heldOnce = true
+	}
+	g.mu.Unlock()
+	if hold {
+		close(g.held)
+		select {
+		case <-g.release:
+		case <-ctx.Done():
+			return ctx.Err()
+		}
+	}
+	g.mu.Lock()
+	g.wire = append(g.wire, proto.Clone(r).(*Rpc))
+	g.mu.Unlock()
+	select {
+	case g.wrote <- struct{}{}:
+	default:
+	}
+	return nil
+}
+
+// c06ResetVersusTrailer (forced schedule, the search for a failing input of the reset/trailer order):
+// a handler finishes, its trailer is on its way through a slow transport, the peer sends one more
+// message for the finished stream. The reset that answers it must not reach the wire before the trailer.
+func c06ResetVersusTrailer(r *Run) {
+	n := r.Scale(6, 60)
+	for i := 0; i < n; i++ {
+		settleGoroutines(0)
+		hooks.Reset(true)
+		g := &gateRW{in: make(chan *Rpc), held: make(chan struct{}), release: make(chan struct{}), wrote: make(chan struct{}, 16)}
+		srv := goat.NewServer("srv")
+		impl := &Impl{}
+		impl.SetStream(func(method string, ss grpc.ServerStream) error {
+			if i%2 == 1 {
+				return status.Error(codes.Aborted, "x")
+			}
+			return nil
+		})
+		impl.SetUnary(func(ctx context.Context, req []byte) ([]byte, error) { return req, nil })
+		srv.RegisterService(&echoDesc, impl)
+		ctx, cancel := context.WithCancel(context.Background())
+		served := make(chan error, 1)
+		go func() { served <- srv.Serve(ctx, g) }()
+		hdr := &goatorepo.RequestHeader{Method: mBidi, Destination: "srv", Source: "c"}
+		in := map[string]any{"round": i}
+		r.Progress("resetrace", in)
+		ok := within(hangTimeout, func() {
+			g.in <- &Rpc{Id: 1, Header: hdr}
+			<-g.held // the trailer is in the writer's hands, inside the transport
+		})
+		ok = ok && hooks.WaitFor(siteIs("srv.unregister", 1), hangTimeout)
+		if ok {
+			ok = within(hangTimeout, func() { g.in <- &Rpc{Id: 1, Header: hdr, Body: &goatorepo.Body{}} })
+		}
+		ok = ok && hooks.WaitFor(siteIs("srv.reset", 1), hangTimeout)
+		if !ok {
+			r.Violate("resetrace.setup", "schedule", "the scenario could not be set up (server stalled)", in, goroutineDump(), nil)
+			cancel()
+			hooks.Reset(false)
+			return
+		}
+		// give a reset that does NOT go through the writer the chance to overtake (this wait only
+		// affects the chance of exposing a defect, never the verdict on correct code)
+		select {
+		case <-g.wrote:
+		case <-time.After(150 * time.Millisecond):
+		}
+		close(g.release)
+		// both envelopes reach the wire
+		deadline := time.After(hangTimeout)
+		for {
+			g.mu.Lock()
+			k := len(g.wire)
+			g.mu.Unlock()
+			if k >= 2 {
+				break
+			}
+			select {
+			case <-g.wrote:
+			case <-deadline:
+			}
+			if k < 2 {
+				g.mu.Lock()
+				k = len(g.wire)
+				g.mu.Unlock()
+				if k < 2 {
+					select {
+					case <-deadline:
+						r.Violate("resetrace.missing", "schedule", "trailer and reset did not both reach the wire", in, k, 2)
+					default:
+						continue
+					}
+					break
+				}
+			}
+		}
+		g.mu.Lock()
+		wire := append([]*Rpc(nil), g.wire...)
+		g.mu.Unlock()
+		var evs []WireEv
+		evs = append(evs, WireEv{"c2s", &Rpc{Id: 1, Header: hdr}}, WireEv{"c2s", &Rpc{Id: 1, Header: hdr, Body: &goatorepo.Body{}}})
+		ri, ti := -1, -1
+		for j, e := range wire {
+			evs = append(evs, WireEv{"s2c", e})
+			if e.Reset_ != nil && ri < 0 {
+				ri = j
+			}
+			if e.Trailer != nil && e.Reset_ == nil && ti < 0 {
+				ti = j
+			}
+		}
+		r.Eval(fmt.Sprintf("resetrace/%d", i), true)
+		r.Count("resetrace")
+		if ri >= 0 && ti >= 0 && ri < ti {
+			r.Violate("resetrace.order", "schedule", "the server's reset for a finished stream reached the wire before that stream's trailer", in, fmt.Sprintf("reset at %d, trailer at %d", ri, ti), "trailer first")
+		}
+		checkWire(r, "resetrace.wire", evs, in)
+		cancel()
+		srv.Stop()
+		within(hangTimeout, func() { <-served })
+		hooks.Reset(false)
 	}
 }
 
